@@ -47,7 +47,7 @@ fn gen_fn_spec(t: &mut Tape, name: &str, tag: &str, deps_pool: &[Deps], mock_act
         }
     }
     let has_gen = params.iter().any(|p| p.vt == VT::Gen);
-    FnSpec { name: name.to_string(), tag: tag.to_string(), vis: String::new(), is_async, deps, bounds, bounds_in_where, params, has_gen }
+    FnSpec { name: name.to_string(), tag: tag.to_string(), vis: String::new(), is_async, deps, bounds, bounds_in_where, params, has_gen, ret_unit: !mock_active && t.chance(1, 6) }
 }
 
 fn call_pair(f: &FnSpec, path_prefix: &str, idx: usize, ufcs: Option<&str>) -> String {
